@@ -1317,6 +1317,9 @@ package res
 //@   ghost store mountIdx#2 before :: assert children.first: imp(i < len(toks), (mapValId(l.nodes, keyid(toks[i-1])) == nil || mfl[ref(mapValId(l.nodes, keyid(toks[i-1])))]) && (l.param == nil || mfl[ref(l.param)]))
 //@   ensures miss.tried: imp(!ok && old(i) + 1 < len(toks), (mapValId(l.nodes, keyid(toks[old(i)])) == nil || mfl[ref(mapValId(l.nodes, keyid(toks[old(i)])))]) && (l.param == nil || mfl[ref(l.param)]))
 //@   loop 1 invariant forallge(q, 0, imp(old(mfl[q]), mfl[q])) && imp(c <= 1 && i < len(toks) && mapValId(l.nodes, keyid(toks[i-1])) != nil, mfl[ref(mapValId(l.nodes, keyid(toks[i-1])))]) && imp(c <= 0 && i < len(toks) && l.param != nil, mfl[ref(l.param)])
+//@   # path parameters: each reported value is the name's token at the placeholder's position (relative to the mount point in use), under the placeholder's name
+//@   ghost mapupdate params#1 before :: assert value.is.token: same(arg_value, toks[n.params[rangeindex].idx + mi]) && same(arg_key, n.params[rangeindex].name) && ref(nm.params) >= old(nextRef())
+//@   ghost mapupdate params#2 before :: assert value.is.token: same(arg_value, toks[n.params[rangeindex__2].idx + mi]) && same(arg_key, n.params[rangeindex__2].name) && ref(nm.params) >= old(nextRef())
 //@   ghost store mountIdx#1 after :: set mnode = ref(n)
 //@   ghost store mountIdx#2 before :: assert no.hit: mhit == old(mhit)
 //@   ghost store mountIdx#2 after :: set mnode = ref(n)
